@@ -22,6 +22,12 @@ fn encode(w: &W, vals: &[i64]) -> Plaintext {
 
 /// decrypt to integer coefficients; for CKKS rounded, with the largest distance from an integer in thousandths
 fn decode(w: &W, c: &Ciphertext) -> Result<(Vec<i64>, i64), String> {
+    decode_first(w, c, usize::MAX)
+}
+
+/// as `decode`, the deviation taken over the first `upto` coefficients only (the statement about extraction
+/// constrains the constant coefficient; the other coefficients of the re-assembled ciphertext are arbitrary)
+fn decode_first(w: &W, c: &Ciphertext, upto: usize) -> Result<(Vec<i64>, i64), String> {
     guarded(|| {
         let n = w.s.ps.n;
         if w.s.ps.scheme == SchemeType::CKKS {
@@ -34,9 +40,12 @@ fn decode(w: &W, c: &Ciphertext) -> Result<(Vec<i64>, i64), String> {
             let mut dev = 0i64;
             let out: Vec<i64> = d
                 .iter()
-                .map(|x| {
+                .enumerate()
+                .map(|(k, x)| {
                     let r = x.round();
-                    dev = dev.max(((x - r).abs() * 1000.0) as i64);
+                    if k < upto {
+                        dev = dev.max(((x - r).abs() * 1000.0) as i64);
+                    }
                     r as i64
                 })
                 .collect();
@@ -102,7 +111,7 @@ pub fn main(args: &[String]) {
         }
         for i in 0..n {
             let r = guarded(|| w.s.evaluator.assemble_lwe(&w.s.evaluator.extract_lwe(&c, i)));
-            let out = r.and_then(|a| decode(&w, &a));
+            let out = r.and_then(|a| decode_first(&w, &a, 1));
             println!("{}", ev(&w, "extract", json!({"m": m, "i": i, "ntt_input": c.is_ntt_form()}), out));
         }
     }
